@@ -40,6 +40,7 @@ type joeTrace struct {
 	putOutcome string
 	failedSub  int   // sub whose error was just placed (next loop.removed is its removal)
 	lastNow    int64 // what the injected clock returned to the replayer's last Now() call
+	panicked   bool  // the replayer call Joe is in panicked (per the fault plan)
 	pendSub    int   // sub with a successful live Send whose Flush has not been seen yet, -1 if none
 	pendPub    string
 	facts      []string
@@ -154,11 +155,11 @@ func (w *joeWriter) Flush() error              { return w.call("f", nil) }
 
 // joeReplayer wraps an optional real replayer, records what it returns, and injects faults.
 type joeReplayer struct {
-	t       *joeTrace
-	inner   sse.Replayer
-	calls   int
-	faults  map[int]string // the k-th call (Put or Replay) misbehaves: "err" or "panic"
-	dead    bool
+	t      *joeTrace
+	inner  sse.Replayer
+	calls  int
+	faults map[int]string // the k-th call (Put or Replay) misbehaves: "err" or "panic"
+	dead   bool
 }
 
 func (r *joeReplayer) pre(kind string) string {
@@ -169,8 +170,9 @@ func (r *joeReplayer) pre(kind string) string {
 	}
 	r.calls++
 	f := r.faults[r.calls]
-	if f == "panic" {
+	if f == "panic" || f == "epanic" || f == "rpanic" {
 		r.dead = true
+		r.t.panicked = true
 	}
 	return f
 }
@@ -181,6 +183,11 @@ func (r *joeReplayer) Put(m *sse.Message, topics []string) (*sse.Message, error)
 		return nil, errPut
 	case "panic":
 		panic("verif: replayer panic in Put")
+	case "epanic": // the panic value is an error
+		panic(errPut)
+	case "rpanic": // a run-time error: the panic value is a runtime.Error
+		var nilMap map[string]int
+		nilMap["x"] = 1
 	}
 	if r.inner == nil {
 		return m, nil
@@ -202,6 +209,11 @@ func (r *joeReplayer) Replay(sub sse.Subscription) error {
 		return errReplay
 	case "panic":
 		panic("verif: replayer panic in Replay")
+	case "epanic":
+		panic(errReplay)
+	case "rpanic":
+		var s []int
+		_ = s[len(s)-1+r.calls-r.calls]
 	}
 	if r.inner == nil {
 		return nil
@@ -277,9 +289,9 @@ func drawScenario(rng *rand.Rand, big bool) joeScenario {
 		at := 0
 		for k, nf := 0, pick(rng, 1, 1, 2, 3); k < nf; k++ {
 			at += 1 + rng.Intn(5)
-			kind := pick(rng, "err", "panic")
+			kind := pick(rng, "err", "err", "panic", "panic", "epanic", "rpanic")
 			sc.rep += fmt.Sprintf(":%d:%s", at, kind)
-			if kind == "panic" {
+			if kind != "err" {
 				break
 			}
 		}
@@ -491,6 +503,11 @@ func runJoe(args []string) string {
 		msgs[p] = m
 		t.msgToPub[m] = p
 	}
+	// Publish must leave the caller's message as it was (C19), whatever the replayer said
+	before := make([]string, len(msgs))
+	for p, m := range msgs {
+		before[p] = m.String() + "|" + m.ID.String() + "|" + fmt.Sprint(m.ID.IsSet())
+	}
 
 	sse.VerifHook = func(point string, a, b any) {
 		switch point {
@@ -520,16 +537,22 @@ func runJoe(args []string) string {
 			t.mu.Unlock()
 		case "loop.replay":
 			t.mu.Lock()
-			if b != nil {
-				if err := b.(error); err.Error() == "replay provider panicked" {
-					t.rOutcome = "panic"
-				} else {
-					t.rOutcome = "err"
-				}
+			// what the replayer did is known from the fault plan, not from how Joe classified it
+			if t.panicked {
+				t.rOutcome = "panic"
+				t.panicked = false
+			} else if b != nil {
+				t.rOutcome = "err"
 			}
 			t.mu.Unlock()
 		case "loop.registered", "loop.rejected":
 			t.mu.Lock()
+			if point == "loop.rejected" && t.rOutcome != "err" {
+				t.fact(fmt.Sprintf("REJECTED-WITHOUT-REPLAY-ERROR(sub%d,%s)", t.replaying, t.rOutcome))
+			}
+			if point == "loop.registered" && t.rOutcome == "err" {
+				t.fact(fmt.Sprintf("REGISTERED-DESPITE-REPLAY-ERROR(sub%d)", t.replaying))
+			}
 			rc := "-"
 			if len(t.rc) > 0 {
 				rc = strings.Join(t.rc, ".")
@@ -543,12 +566,11 @@ func runJoe(args []string) string {
 			t.mu.Unlock()
 		case "loop.put":
 			t.mu.Lock()
-			if b != nil {
-				if err := b.(error); err.Error() == "replay provider panicked" {
-					t.putOutcome = "panic"
-				} else {
-					t.putOutcome = "err"
-				}
+			if t.panicked {
+				t.putOutcome = "panic"
+				t.panicked = false
+			} else if b != nil {
+				t.putOutcome = "err"
 			}
 			t.mu.Unlock()
 		case "loop.errsClosed":
@@ -771,6 +793,13 @@ func runJoe(args []string) string {
 	}
 	t.mu.Lock()
 	defer t.mu.Unlock()
+	if !strings.Contains(strings.Join(t.facts, ","), "BLOCKED") { // (a blocked Publish may still be running)
+		for p, m := range msgs {
+			if now := m.String() + "|" + m.ID.String() + "|" + fmt.Sprint(m.ID.IsSet()); now != before[p] {
+				t.fact(fmt.Sprintf("CALLER-MESSAGE-MODIFIED(pub%d)", p))
+			}
+		}
+	}
 	if g := runtime.NumGoroutine(); g > baseG {
 		t.fact(fmt.Sprintf("GOROUTINES-LEFT(%d)", g-baseG))
 	}
